@@ -10,6 +10,7 @@ import (
 	"encoding/hex"
 	"fmt"
 	"math"
+	"os"
 	"reflect"
 	"sort"
 	"strconv"
@@ -23,6 +24,8 @@ import (
 func init() {
 	h.Register(&h.Prop{ID: "C16", Gen: genC16, Impl: implC16, Trivial: func(l string) bool { return false }})
 }
+
+type namedF32 float32
 
 var vmPool = sync.Pool{New: func() interface{} { return otto.New() }}
 
@@ -51,7 +54,9 @@ func numGo(t string) interface{} {
 	case "f", "f64":
 		return h.HexF64(p)
 	case "f32":
-		return float32(h.HexF64(p))
+		// a plain float32 is widened to float64 by toValue (value.go:296); only a NAMED float32 type reaches
+		// the reflect path (value.go:353) that keeps a float32 payload inside the Value
+		return namedF32(h.HexF64(p))
 	case "u64", "uint", "u8", "u16", "u32":
 		n, err := strconv.ParseUint(p, 10, 64)
 		if err != nil {
@@ -98,19 +103,13 @@ func render(v reflect.Value) string {
 		}
 		return "P(" + render(v.Elem()) + ")"
 	case reflect.Slice, reflect.Array:
-		if v.Kind() == reflect.Slice && v.IsNil() {
-			return "S.nil"
-		}
 		parts := make([]string, v.Len())
 		for i := range parts {
 			parts[i] = render(v.Index(i))
 		}
 		return "S[" + strings.Join(parts, ",") + "]"
 	case reflect.Map:
-		if v.IsNil() {
-			return "M.nil"
-		}
-		var parts []string
+		var parts []string // nil and empty maps/slices are not distinguished
 		for _, k := range v.MapKeys() {
 			parts = append(parts, render(k)+"="+render(v.MapIndex(k)))
 		}
@@ -183,6 +182,20 @@ func implC16(line string) string {
 	switch f[0] {
 	case "num":
 		return implNum(f)
+	case "call":
+		return implCall(f)
+	case "ret":
+		return implRet(f)
+	case "store":
+		return implStore(f)
+	case "slice":
+		return implSlice(f)
+	case "map":
+		return implMap(f)
+	case "struct":
+		return implStruct(f)
+	case "field":
+		return implField(f)
 	}
 	return "bad-op"
 }
@@ -253,6 +266,15 @@ func randNum(r *h.Rng, bd []float64) string {
 }
 
 func genC16(c *h.Ctx) {
+	defer func() {
+		if p := os.Getenv("C16_DUMP"); p != "" { // debugging aid: dump the request stream in replay format
+			var b strings.Builder
+			for _, l := range c.Lines {
+				b.WriteString("request: " + l + "\n")
+			}
+			os.WriteFile(p, []byte(b.String()), 0o644)
+		}
+	}()
 	bd := h.BoundaryDoubles()
 	nums := numBoundary(c.Rng)
 	for _, t := range numTypes {
@@ -260,7 +282,96 @@ func genC16(c *h.Ctx) {
 			c.Add("num "+t+" "+n, "num:"+t)
 		}
 	}
-	for i := 0; i < c.N(20000, 400000); i++ {
+	for i := 0; i < c.N(8000, 400000); i++ {
 		c.Add("num "+numTypes[c.Rng.Intn(len(numTypes))]+" "+randNum(c.Rng, bd), "num:random")
+	}
+	g := &gen{r: c.Rng, bd: bd, nums: nums}
+	// store path: every scalar target x boundary numbers and a few non-numbers
+	others := []string{"u", "n", "b:0", "b:1", "s:", "s:3132", "s:312e35", "s:616263", "s:30783130", "s:31653330", "s:2d31", "s:20372020"}
+	for _, t := range append(append([]string{}, numTypes...), "bool", "str", "any") {
+		for _, n := range nums {
+			if t == "str" && !strOK(n) {
+				continue
+			}
+			c.Add("store "+t+" "+n, "store:"+t)
+		}
+		for _, o := range others {
+			c.Add("store "+t+" "+o, "store:nonnumber")
+		}
+	}
+	for i := 0; i < c.N(3000, 150000); i++ {
+		t := numTypes[c.Rng.Intn(len(numTypes))]
+		c.Add("store "+t+" "+randNum(c.Rng, bd), "store:random")
+	}
+	// arity: every count 0..4 against fixed and variadic signatures
+	for k := 0; k <= 3; k++ {
+		for m := 0; m <= 5; m++ {
+			for _, fv := range []string{"F", "V"} {
+				if fv == "V" && k == 0 {
+					continue
+				}
+				ts := strings.Repeat(" int", k)
+				as := ""
+				for j := 0; j < m; j++ {
+					as += fmt.Sprintf(" i64:%d", j+1)
+				}
+				c.Add(fmt.Sprintf("call %s %d%s%s", fv, k, ts, as), "call:arity")
+			}
+		}
+	}
+	for k := 0; k <= 4; k++ {
+		c.Add(fmt.Sprintf("ret %d", k), "ret")
+	}
+	// structured calls
+	for i := 0; i < c.N(14000, 500000); i++ {
+		k := 1 + c.Rng.Intn(3)
+		if c.Rng.Chance(60) {
+			k = 1
+		}
+		variadic := c.Rng.Chance(30)
+		var ts, as []string
+		for j := 0; j < k; j++ {
+			ts = append(ts, g.typ(2))
+		}
+		m := k
+		if variadic {
+			m = k - 1 + c.Rng.Intn(4)
+		} else if c.Rng.Chance(4) {
+			m = c.Rng.Intn(k + 2)
+		}
+		for j := 0; j < m; j++ {
+			tj := ts[len(ts)-1]
+			if j < k {
+				tj = ts[j]
+			}
+			if variadic && j == k-1 && m == k && c.Rng.Chance(50) {
+				tj = "S(" + tj + ")" // the "last argument is itself the slice" rule
+			}
+			as = append(as, g.val(tj, 2))
+		}
+		fv := "F"
+		if variadic {
+			fv = "V"
+		}
+		key := "call:fixed"
+		if variadic {
+			key = "call:variadic"
+		}
+		c.Add(fmt.Sprintf("call %s %d %s %s", fv, k, strings.Join(ts, " "), strings.Join(as, " ")), key)
+	}
+	// struct field lookup
+	for i := 0; i < c.N(3000, 60000); i++ {
+		st := g.structType(2)
+		c.Add("field "+st+" "+g.fieldKey(st), "field")
+	}
+	// container histories
+	for i := 0; i < c.N(4000, 120000); i++ {
+		c.Add(g.sliceHistory(), "hist:slice")
+	}
+	for i := 0; i < c.N(3000, 80000); i++ {
+		c.Add(g.mapHistory(), "hist:map")
+	}
+	for i := 0; i < c.N(3000, 80000); i++ {
+		c.Add(g.structHistory(), "hist:struct")
 	}
 }
